@@ -142,6 +142,42 @@ def worker(args):
     return part
 
 
+def worker_burst(args):
+    """a burst of notifications on a large document, written without waiting for anything (more than the server's queues hold),
+    then one read: the text must be the result of all changes in the order they were sent"""
+    seed, nbursts, sizes = args
+    rng = random.Random("C08/burst/%s" % seed)
+    part = Part(); srv = None
+    for it in range(nbursts):
+        uri = rng.choice(URIS)
+        filler = "".join("proc filler%d(a: int, ref b: int) {\n    var c: int; // ü€\n    c := a * %d + b;\n    if (c < a) { b := c; } else { b := a; }\n}\n" % (j, j) for j in range(rng.choice(sizes)))
+        text = filler + rand_text(rng, 30)
+        log = [{"open": text, "uri": uri}]
+        try:
+            if srv is None or not srv.alive(): srv = Server(server_bin("rel"))
+            srv.open(uri, text)
+            n = rng.choice([40, 80, 150] if max(sizes) < 1000 else [40, 80, 150, 300])
+            for k in range(n):
+                spans = lspmodel.line_spans(text)
+                ln = rng.randrange(len(spans)); col = rng.randint(0, 8)
+                ch = {"range": {"start": {"line": ln, "character": col}, "end": {"line": ln, "character": col + rng.choice([0, 0, 1])}}, "text": rng.choice(["x", "y€", " ", "\n", "1;", ""]) + str(k % 10)}
+                text = lspmodel.apply_change(text, ch); log.append({"change": [ch]})
+                srv.change(uri, [ch], k + 1)
+            got = srv.text_of(uri); part.ev(n)
+            if got != text:
+                i = next((i for i, (x, y) in enumerate(zip(got or "", text)) if x != y), min(len(got or ""), len(text)))
+                part.fail("after a burst of %d pipelined notifications on a document of %d lines the server's text differs from the client's at code point %d: server %r, client %r"
+                          % (n, len(lspmodel.line_spans(text)), i, (got or "")[max(0, i - 15):i + 15], text[max(0, i - 15):i + 15]), {"kind": "sync", "log": log})
+            else: part.cnt("bursts"); part.see(("burst", n >= 80, len(filler) > 100000))
+            srv.close_doc(uri)
+        except (ServerDied, Timeout, FrameError) as e:
+            part.fail("server failed during a burst of notifications (%s): %s" % (type(e).__name__, e), {"kind": "sync", "log": log})
+            if srv: srv.kill()
+            srv = None
+    if srv: srv.kill()
+    return part
+
+
 def replay_log(srv, log):
     uri = log[0]["uri"]; text = log[0]["open"]
     srv.open(uri, text)
@@ -156,9 +192,11 @@ def run(ctx):
     known = [f for f in load_findings()["findings"] if f.get("status") == "open" and f.get("kind") == "crash"]
     nh, ms = (120, 40) if ctx.quick else (1500, 50)
     for p in pmap(worker, [("%s/%d" % (ctx.seed, i), nh, ms, known) for i in range(NCPU)]): ctx.merge(p)
+    for p in pmap(worker_burst, [("%s/%d" % (ctx.seed, i), 1 if ctx.quick else 40, [50, 200, 400] if ctx.quick else [50, 400, 1500]) for i in range(NCPU)]): ctx.merge(p)
+    ctx.floor("bursts of pipelined notifications", ctx.extra.get("counters", {}).get("bursts", 0) if not ctx.violations else 1, 1)
     ctx.rule = ("random documents over ASCII, 2/3/4-byte characters, CR, LF, CRLF, empty lines; histories of up to 50 notifications with 1-4 changes each (ranged: zero width, "
                 "within a line, whole lines, across lines, overshooting column, overshooting line; every ~10th a full-text replacement); six URI shapes incl. percent escapes; "
-                "server text compared after every notification; distinct_nontrivial = distinct (range shape, overshoot kind, batch size) classes")
+                "server text compared after every notification; bursts of 40-300 pipelined notifications on documents of up to 7 500 lines, text compared after the burst; distinct_nontrivial = distinct (range shape, overshoot kind, batch size) classes")
     ctx.assumptions = ["the LSP text model in harness/lspmodel.py is a faithful reading of the LSP 3.17 position rules", "positions inside a surrogate pair are not generated"]
     ctx.floor("evaluations", ctx.evaluations, 5000)
     ctx.floor("position round trips", ctx.extra.get("counters", {}).get("round_trips", 0), 300)
